@@ -40,7 +40,7 @@ def flat_td(td):
     return [z3.If(adj, s + 1, s), z3.If(adj, n - G, n)]
 
 
-@obligation(prop="C06", tier="quick", timeout=300, probe="td_new",
+@obligation(prop="C06", also=("C15",), tier="quick", timeout=300, probe="td_new",
             desc="TimeDelta::new(secs, nanos) is Some exactly when nanos < 10^9 and secs*10^9+nanos lies in [-(2^63-1) ms, +(2^63-1) ms]; the value is exactly that count",
             bounds="all i64 secs x all u32 nanos")
 def c06_m_new(o):
@@ -63,7 +63,7 @@ UNITS = [("try_weeks", 604800 * G), ("try_days", 86400 * G), ("try_hours", 3600 
 
 
 def _unit_ob(fn, unit):
-    @obligation(prop="C06", tier="quick", timeout=300, probe="td_" + fn,
+    @obligation(prop="C06", also=("C15",), tier="quick", timeout=300, probe="td_" + fn,
                 desc=f"TimeDelta::{fn}(x) is Some exactly when x*unit lies in the TimeDelta range, and then equals exactly x units; never panics",
                 bounds="all i64 arguments")
     def ob(o):
@@ -91,7 +91,7 @@ for _ob in _api.REGISTRY:
 
 
 def _small_unit_ob(fn, unit):
-    @obligation(prop="C06", tier="quick", timeout=300, probe="td_" + fn,
+    @obligation(prop="C06", also=("C15",), tier="quick", timeout=300, probe="td_" + fn,
                 desc=f"TimeDelta::{fn}(x) (infallible) is exactly x units and inside the range for every i64; no panic edge reachable",
                 bounds="all i64 arguments")
     def ob(o):
@@ -112,7 +112,7 @@ for _ob in _api.REGISTRY:
         _ob.name = _ob.fn.__name__
 
 
-@obligation(prop="C06", tier="quick", timeout=600, probe="td_add_sub",
+@obligation(prop="C06", also=("C15",), tier="quick", timeout=600, probe="td_add_sub",
             desc="checked_add / checked_sub return the exact sum / difference, or None exactly when it lies outside the range; results are well-formed and in range; no panic (intermediate i64/i32 additions cannot overflow)",
             bounds="all pairs of in-range TimeDeltas (i64 secs x i32 nanos each)")
 def c06_m_add_sub(o):
@@ -130,7 +130,7 @@ def c06_m_add_sub(o):
         o.claim(nm + "_exact", z3.Implies(opt_is_some(r), z3.And(td_value(opt_payload(r)) == v, well_formed(opt_payload(r)))))
 
 
-@obligation(prop="C06", tier="quick", timeout=600, probe="td_neg_abs",
+@obligation(prop="C06", also=("C15",), tier="quick", timeout=600, probe="td_neg_abs",
             desc="neg (unary minus) and abs return the exact negation / absolute value, always well-formed and in range (the range is symmetric); no panic edge reachable (i64::abs never sees i64::MIN)",
             bounds="all in-range TimeDeltas")
 def c06_m_neg_abs(o):
@@ -144,7 +144,7 @@ def c06_m_neg_abs(o):
     o.claim("abs_exact", z3.And(td_value(r2) == z3.If(va >= 0, va, -va), well_formed(r2)))
 
 
-@obligation(prop="C06", tier="quick", timeout=900, probe="td_mul",
+@obligation(prop="C06", also=("C15",), tier="quick", timeout=900, probe="td_mul",
             desc="checked_mul(i32) returns the exact product, or None exactly when the product lies outside the TimeDelta range; a Some result is always inside the range (finding F2 on the original tree)",
             bounds="all in-range TimeDeltas x all i32 multipliers; products are linear in the atoms secs*k and nanos*k")
 def c06_m_mul(o):
@@ -161,7 +161,7 @@ def c06_m_mul(o):
     o.claim("exact_and_in_range", z3.Implies(some, z3.And(td_value(opt_payload(r)) == prod, well_formed(opt_payload(r)))))
 
 
-@obligation(prop="C06", tier="quick", timeout=900, probe="td_div",
+@obligation(prop="C06", also=("C15",), tier="quick", timeout=900, probe="td_div",
             desc="checked_div(i32): None exactly for divisor 0; otherwise the result r is well-formed, in range and |r*k - a| < 2|k| ns (less than two nanoseconds from the exact quotient); no panic",
             bounds="all in-range TimeDeltas x all i32 divisors (symbolic divisor via the division lemma)")
 def c06_m_div(o):
@@ -186,7 +186,7 @@ def trunc_div(v, u):
     return z3.If(v >= 0, v / u, -((-v) / u))
 
 
-@obligation(prop="C06", tier="quick", timeout=600, probe="td_accessors",
+@obligation(prop="C06", also=("C15",), tier="quick", timeout=600, probe="td_accessors",
             desc="unit accessors truncate toward zero and sub-unit parts carry the same sign: num_weeks/days/hours/minutes/seconds/milliseconds, num_microseconds/num_nanoseconds (None exactly when the count does not fit i64), subsec_nanos/micros/millis; is_zero",
             bounds="all in-range TimeDeltas")
 def c06_m_accessors(o):
@@ -217,7 +217,7 @@ def c06_m_accessors(o):
     o.claim("is_zero", z.e == (va == 0))
 
 
-@obligation(prop="C06", tier="quick", timeout=600, probe="td_cmp",
+@obligation(prop="C06", also=("C15",), tier="quick", timeout=600, probe="td_cmp",
             desc="derived PartialOrd/Ord/PartialEq on TimeDelta agree with the numeric order of the nanosecond counts",
             bounds="all pairs of in-range TimeDeltas")
 def c06_m_ord(o):
@@ -234,7 +234,7 @@ def c06_m_ord(o):
     o.claim("partial_cmp_is_cmp", z3.And(opt_is_some(pc), opt_payload(pc).disc == c.disc))
 
 
-@obligation(prop="C06", tier="quick", timeout=600, probe="td_std",
+@obligation(prop="C06", also=("C15",), tier="quick", timeout=600, probe="td_std",
             desc="from_std(Duration) is Ok exactly when the duration fits the range and then exact; to_std is Ok exactly for non-negative values and exact",
             bounds="all std Durations (u64 secs x nanos < 10^9) / all in-range TimeDeltas")
 def c06_m_std(o):
